@@ -11,7 +11,8 @@ B  spec -> code: for every family schema TLC computes the set of all (pkt, key) 
    over 3 symbols, 1600 pairs) for which Check holds; the real Checker.check (directly and after
    save/load) is run on every pair and compared.
 C  code -> spec: seeded generator (signing chains, alternatives, shared pattern names, constraints on shared
-   patterns, key constraints naming patterns bound only by the packet); all pairs of short names, sampled
+   patterns, key constraints naming patterns bound only by the packet, definitions / rules whose chains end on the
+   same tree node with signer lists of their own); all pairs of short names, sampled
    pairs of longer ones, implicit-digest suffix on either side; judged by TLC:
    Lvs!Check = LvsTree!TreeCheck(model) = recorded answer, and yes => the key matches a rule.
 """
@@ -246,6 +247,11 @@ def stage_c(ctx, procs):
         ctx.sample({'kind': 'C-schema', 'text': text, 'pairs': len(pairs), 'yes': sum(1 for p in pairs if p[2])}, limit=3)
     ctx.note('C: %d generated schemas with signing relations (%d more rejected, judged by C13), %d pairs in total, '
              '%d answered yes' % (len(recs), rejected, sum(len(r['pairs']) for r in recs), nyes))
+    ctx.note('C: generator shapes: %d schemas where a definition with signers of its own is written like ONE chain of a '
+             'rule that has several (the chains end on one node, the signer lists stay apart), %d with a constraint '
+             'inherited onto a pattern of the referring rule' % (gen.stat['flat'], gen.stat['foreign']))
+    if len(recs) >= 30 and not gen.stat['flat']:
+        raise tlc.MachineryError('C: generator dimension vacuous: %s' % gen.stat)
     ver = K.judge(ctx, [strip12(r) for r in recs], 'c12c', procs)
     report(ctx, recs, ver)
 
